@@ -200,8 +200,10 @@ package service
 //@   trace[C06,no-close-in-drain] never io.ReadCloser.Close
 
 //@ func (*streamHandler).handleConnection
-//@   props C01 C05 C06 C15 C18
+//@   props C01 C02 C05 C06 C15 C18
 //@   requires validStreamHandler(h) && ctx != nil && outerConn != nil && connMetrics != nil && proxyMetrics != nil
+//@   trace[C02,only-the-context-deadline-covers-writes] each transport.StreamConn.SetDeadline satisfies $recv == outerConn && $arg0 == evres("context.Context.Deadline", 0)
+//@   trace[C02,no-write-deadline-of-its-own] never transport.StreamConn.SetWriteDeadline
 //@   trace[C05,no-direct-dial] never transport.StreamDialer.DialStream
 //@   trace[C06,deadline-before-first-read] before transport.StreamConn.SetReadDeadline service.streamHandler.authenticate
 //@   trace[C06,one-authentication] exactly 1 service.streamHandler.authenticate
